@@ -169,12 +169,15 @@ SIG_CANARY = 'valid-message-refused-after-hostile-input'
 
 
 def canary_messages(message):
-    """a few VALID messages with nested containers and variants; they must decode whatever was decoded before them"""
+    """a few VALID messages (nested containers, variants, several top-level types); they must decode - to the same
+    body - whatever was decoded before them.  Returns the raw bytes; canary_expect gives the bodies."""
     out = []
     for mk in (lambda: message.MethodCallMessage('/a', 'M', signature='a{sv}', body=[{'k': 1, 's': 'x'}]),
                lambda: message.SignalMessage('/a', 'S', 'a.b', signature='aai', body=[[[1, 2], [3]]]),
                lambda: message.MethodReturnMessage(7, signature='v', body=[[1, 'x', [2, 'y']]]),
-               lambda: message.ErrorMessage('a.Err', 7, signature='s', body=['text'])):
+               lambda: message.ErrorMessage('a.Err', 7, signature='s', body=['text']),
+               lambda: message.MethodCallMessage('/a', 'N', signature='sua{sv}(yy)', body=['hello', 5, {'k': 1}, [1, 2]]),
+               lambda: message.SignalMessage('/a', 'T', 'a.b', signature='iis', body=[1, 2, 'z'])):
         try:
             out.append(bytes(mk().rawMessage))
         except Exception:
@@ -182,13 +185,30 @@ def canary_messages(message):
     return out
 
 
+CANARY_BODIES = [[{'k': 1, 's': 'x'}], [[[1, 2], [3]]], [[1, 'x', [2, 'y']]], ['text'], ['hello', 5, {'k': 1}, [1, 2]], [1, 2, 'z']]
+
+
 def canary_failure(message, raws):
-    for r in raws:
+    """None if every valid message decodes now to its body; else why not - but only if the same bytes DO decode in a fresh
+    process of the same tree (otherwise the tree simply cannot decode them, which is for the other oracles to report)"""
+    why = None
+    for i, r in enumerate(raws):
         try:
-            message.parseMessage(r, [])
+            m = message.parseMessage(r, [])
+            if len(raws) == len(CANARY_BODIES) and m.body != CANARY_BODIES[i]:
+                raise ValueError('decoded body %r, sent %r' % (m.body, CANARY_BODIES[i]))
         except Exception as e:
-            return '%s: %s' % (type(e).__name__, e)
-    return None
+            why = '%s: %s' % (type(e).__name__, e)
+            break
+    if why is None:
+        return None
+    import subprocess
+    code = ('import sys; from txdbus import message\n'
+            'for h in sys.argv[1:]:\n    message.parseMessage(bytes.fromhex(h), [])\n')
+    p = subprocess.run([sys.executable, '-c', code] + [r.hex() for r in raws], stdout=subprocess.PIPE, stderr=subprocess.STDOUT,
+                       env=dict(os.environ, PYTHONPATH=os.path.dirname(os.path.dirname(os.path.abspath(message.__file__))),
+                                PYTHONDONTWRITEBYTECODE='1'))
+    return why if p.returncode == 0 else None
 
 
 def replay_canary(c, res):
@@ -221,8 +241,8 @@ def evaluate(ctx, cases, res):
     if not cases:
         return
     import collections
-    canary = canary_messages(message)
-    canary_live = canary_failure(message, canary) is None      # only judged if they decode on a fresh process
+    canary = canary_messages(message)     # only MARSHALLED here: their first decode in this process comes after hostile inputs
+    canary_live = True
     recent_err = collections.deque(maxlen=120)
     nerr = 0
     _raise_stack_limit()
@@ -254,7 +274,8 @@ def evaluate(ctx, cases, res):
         if cls in ('err', 'reslimit', 'abort'):
             recent_err.append(c)
             nerr += 1
-            if canary_live and nerr % 40 == 0:
+        if cls in ('err', 'reslimit', 'abort') or c.get('then_canary'):
+            if canary_live and (nerr % 40 == 0 or c.get('then_canary')):
                 why = canary_failure(message, canary)
                 if why is not None:
                     canary_live = False
@@ -487,6 +508,21 @@ def gen_cases(ctx):
     def note(k, c):
         kinds[k] = kinds.get(k, 0) + 1
         return c
+    # every proper prefix of the canary messages FIRST: whatever a failing decode leaves behind in the process
+    # (caches, counters) is then in place when the complete messages are decoded by the canary oracle
+    from txdbus import message as _message
+    import struct as _struct
+    cans = canary_messages(_message)
+    for i, raw in enumerate(cans):
+        # ONE cut per canary, inside its body after the first value (a decode that fails part-way through the signature);
+        # more cuts in this process would only meet state the first one left behind
+        harr = _struct.unpack_from('<I', raw, 12)[0]
+        body_at = (16 + harr + 7) & ~7
+        n = min(len(raw) - 1, body_at + max(1, (len(raw) - body_at) // 3))
+        c = msg(raw[:n])
+        if i == len(cans) - 1:
+            c['then_canary'] = True      # decode the complete canaries right after these failing decodes
+        yield note('canary-trunc', c)
     seeds = g.seed_messages(rng, ctx.n(36, 60))
     for s in seeds:
         yield note('seed', msg(s))
